@@ -100,7 +100,7 @@ def minimise(ctx, st, binpath, case_ops, pred, budget=40):
     return cur
 
 
-def run_stream(ctx, prop, st, seeds):
+def run_stream(ctx, prop, st, seeds, search=False):
     pid = ctx.pid
     rc, out, binpath = core.go_build_harness(pid, st["pkg"], ctx.log, tags=st.get("tags", "verif"))
     if rc != 0:
@@ -113,7 +113,7 @@ def run_stream(ctx, prop, st, seeds):
     # corpus first
     corpus_dir = os.path.join(VERIF, "corpus", pid)
     batches = []
-    if os.path.isdir(corpus_dir):
+    if os.path.isdir(corpus_dir) and not search:
         for fn in sorted(os.listdir(corpus_dir)):
             if fn.startswith(st["name"] + ".") and fn.endswith(".ops"):
                 batches.append(("corpus-" + fn, read_lines(os.path.join(corpus_dir, fn))))
@@ -193,7 +193,20 @@ def run_stream(ctx, prop, st, seeds):
                     explanation="cross-line property check on the implementation's outputs: " + why))
                 ctx.violations.append((p, True))
     cov = ctx.cov.setdefault("streams", {})
-    cov[st["name"]] = dict(evaluations=total["evals"], distinct_nontrivial=len(total["distinct"]),
+    prev = cov.get(st["name"])
+    if prev is not None:
+        # a further search round over the same stream: the counts add up
+        total["evals"] += prev["evaluations"]
+        total["diffs"] += prev["disagreements"]
+        total["fails"] += prev["monitor_failures"]
+        total["known"] = total.get("known", 0) + prev["known_finding_hits"]
+        total["samples"] = prev["samples"]
+        for kk, vv in prev["op_histogram"].items():
+            total["ophist"][kk] += vv
+        for kk, vv in prev["outcome_histogram"].items():
+            total["outhist"][kk] += vv
+        total["distinct_prev"] = prev["distinct_nontrivial"]
+    cov[st["name"]] = dict(evaluations=total["evals"], distinct_nontrivial=len(total["distinct"]) + total.get("distinct_prev", 0),
                            op_histogram=dict(total["ophist"]), outcome_histogram=dict(total["outhist"].most_common(40)),
                            disagreements=total["diffs"], monitor_failures=total["fails"], known_finding_hits=total.get("known", 0),
                            samples=total["samples"])
@@ -259,6 +272,19 @@ def main_check(pid, tier, seed, replay=None):
     if os.path.exists(core.DRIVER):
         for st in prop.get("streams", []):
             run_stream(ctx, prop, st, seeds)
+        # a tie broke during the run and no failing input came with it: search further seeds for one (corpus files are not re-run)
+        extra = 3 if tier == "quick" else 6
+        searched = 0
+        for k in range(nseeds, nseeds + extra):
+            if not ctx.broken or any(v[1] for v in ctx.violations):
+                break
+            if not any(b.startswith("correspondence:") for b in ctx.broken):
+                break
+            searched += 1
+            ctx.say(f"[{pid}] searching for a failing input: seed {seed + 7919 * k}")
+            for st in prop.get("streams", []):
+                run_stream(ctx, prop, st, [seed + 7919 * k], search=True)
+        nseeds += searched
     for ex in prop.get("extra", []):
         ex(ctx)
     # 4. report
